@@ -8,6 +8,7 @@ the point affinities `exp(-gamma·diff²)` are an arbitrary table. The neighbour
 is a parameter: the theorems hold for the Python rule (`choosePy`), the C rule (`chooseC`) and any other.
 -/
 import Dtaiverif.Proofs.Affinity
+import Dtaiverif.Props.PyBand
 
 namespace Dtai
 variable {β : Type} [CommRing β] [LinearOrder β] [IsStrictOrderedRing β]
